@@ -25,7 +25,7 @@ pub static DEF: PropDef = PropDef {
     real: &["filter parser / compiler / executor (InList node)", "ExecutionContext list matcher storage, clear, clone_with, borrow_with, $lists serde", "AlwaysList / NeverList", "serde_json"],
     stub: &["SetList matcher (harness ListDefinition / ListMatcher with real state, call recorder and scheduling points)", "byte source (FaultyReader)"],
     assumptions: &["reference evaluator of the left-hand side (index / key / [*] flattening; harness functions are identity, lower-case, length)", "serde_json as transport"],
-    required_probes: &["op.execute", "op.mutate", "op.clear", "op.clone", "op.borrow", "op.roundtrip", "probe.always_true", "probe.never", "probe.each", "probe.parse_rejected", "probe.two_tasks", "fault.eintr"],
+    required_probes: &["op.execute", "op.mutate", "op.clear", "op.clone", "op.borrow", "op.roundtrip", "probe.always_true", "probe.never", "probe.each", "probe.parse_rejected", "probe.two_tasks", "fault.eintr", "op.matcher_panics"],
     extra: None,
 };
 
@@ -379,7 +379,7 @@ fn run(ctx: &RunCtx) -> Result<(), Violation> {
     // snapshots that must stay independent: (context, model at the time)
     let mut frozen: Vec<(ExecutionContext<'static>, ModelCtx)> = Vec::new();
     for opi in 0..nops {
-        let op = if scenario > 0 { 0 } else { choose_w(&[6, 4, 1, 2, 2, 3, 2], "op") };
+        let op = if scenario > 0 { 0 } else { choose_w(&[6, 4, 1, 2, 2, 3, 2, 1], "op") };
         match op {
             0 => {
                 if queries.is_empty() {
@@ -502,6 +502,33 @@ fn run(ctx: &RunCtx) -> Result<(), Violation> {
                         check_state(&spec, &scheme, &real, &model, "roundtrip")?;
                     }
                 }
+            }
+            7 => {
+                // the matcher panics in the middle of an execution: the panic surfaces, nothing else changes
+                if queries.is_empty() {
+                    continue;
+                }
+                let (q, f) = &queries[choose(queries.len(), "boomq.q")];
+                if !can_execute(&spec, q, &model) {
+                    continue;
+                }
+                let (_, want_calls) = expected_query(&spec, q, &model, None);
+                if want_calls.is_empty() {
+                    continue;
+                }
+                let nth = 1 + choose(want_calls.len(), "boomq.nth") as u32;
+                seams::arm_panic("list.match", nth);
+                let r = catch_unwind(AssertUnwindSafe(|| f.execute(&real)));
+                seams::disarm_all();
+                seams::harness(|h| h.calls.clear());
+                kernel::count("op.matcher_panics");
+                crate::tr!("  execute `{}` with the matcher armed to panic at query {nth} -> {}", q.text, if r.is_err() { "unwound" } else { "returned" });
+                if r.is_ok() {
+                    return Err(v("matcher-panic-swallowed", "", format!("`{}`: the matcher panicked at query {nth} but execute returned {:?}", q.text, r)));
+                }
+                check_state(&spec, &scheme, &real, &model, "matcher-panicked")?;
+                // and the same query answers as before afterwards
+                check_execute(&spec, q, f, &real, &model, None)?;
             }
             _ => {
                 // set a field (changes what the lhs evaluates to)
